@@ -708,8 +708,10 @@ def spec_classes(spec: dict) -> list:
         classes.append("prepeptide")
     if any(g["loc"]["strand"] == -1 for g, _ in pres):
         classes.append("prepeptide_reverse")
-    if any(len(g["loc"]["parts"]) > 1 for g, _ in pres):
+    if any(len(g["loc"]["parts"]) > 1 and not _is_span(g["loc"]) for g, _ in pres):
         classes.append("prepeptide_multi_exon")
+    if any(_is_span(g["loc"]) for g, _ in pres):
+        classes.append("prepeptide_span")
     if any(p.get("subclass") is None for _, p in pres):
         classes.append("prepeptide_no_subclass")
     if any(p.get("leader") and p.get("tail") for _, p in pres):
@@ -918,13 +920,20 @@ def _prepeptide(draw, aminos: int) -> dict:
 
 
 @st.composite
-def _gene_details(draw, gene: dict, gindex: int, circular: bool, modular_bias: bool, notes_bias: int) -> None:
+def _gene_details(draw, gene: dict, gindex: int, circular: bool, modular_bias: bool, notes_bias: int,
+                  seen: set) -> None:
     loc = gene["loc"]
     span = gen.is_span(loc)
     first_part = loc["parts"][0]
     codon_start = 1
     if not span and first_part[1] - first_part[0] >= 6 and draw(_one_in(5)):
         codon_start = draw(st.sampled_from([2, 3]))
+    key = repr(shifted(loc, codon_start)["parts"]) + str(loc["strand"])
+    if key in seen:
+        # two genes must not share a location once shifted (the record refuses such input)
+        codon_start = 1
+        key = repr(loc["parts"]) + str(loc["strand"])
+    seen.add(key)
     gene["codon_start"] = codon_start
     if codon_start == 1 and draw(_one_in(6)):
         gene["explicit_codon_start"] = True
@@ -978,7 +987,7 @@ def _gene_details(draw, gene: dict, gindex: int, circular: bool, modular_bias: b
     gene["nrps_type"] = draw(st.sampled_from(NRPS_TYPES)) if any(d["kind"] == "modular" for d in gene["domains"]) else None
     gene["prepeptide"] = None
     whole = loc_len(shifted(loc, codon_start)) % 3 == 0 and not any(gene["fuzzy"])
-    if not span and aminos >= 3 and draw(_one_in(4 if whole else 24)):
+    if aminos >= 3 and (not span or draw(_one_in(3))) and draw(_one_in(4 if whole else 24)):
         gene["prepeptide"] = draw(_prepeptide(aminos))
 
 
@@ -1174,8 +1183,10 @@ def record_specs(draw, *, max_len: int = 5000, max_genes: int = 8, max_protoclus
                                  gap_choices=(0, 10, length // 10)))
     modular_bias = draw(st.booleans())
     notes_bias = draw(st.sampled_from([0, 1, 1]))
+    seen = {repr(gene["loc"]["parts"]) + str(gene["loc"]["strand"]) for gene in genes}
     for gindex, gene in enumerate(genes):
-        draw(_gene_details(gene, gindex, circular, modular_bias, notes_bias))
+        seen.discard(repr(gene["loc"]["parts"]) + str(gene["loc"]["strand"]))
+        draw(_gene_details(gene, gindex, circular, modular_bias, notes_bias, seen))
     anchors = tuple(x for g in genes for p in g["loc"]["parts"] for x in p)
     misc = []
     for _ in range(draw(st.sampled_from([0, 0, 1, 2]))):
